@@ -241,7 +241,8 @@ fn start_task(kind: Kind) -> RTask {
                 body_finished.store(true, Ordering::SeqCst);
             }
             Ok(GateMsg::Panic) => panic!("harness: the task body panics"),
-            Err(_) => std::future::pending::<()>().await,
+            // the harness drops the gate only when the execution is over: let the task end
+            Err(_) => {}
         }
     };
     let handle = match kind {
@@ -445,15 +446,28 @@ fn model_key(models: &[MTask]) -> u64 {
 }
 
 /// Runs one event sequence against fresh tasks on a fresh runtime.
-fn run_seq(kinds: &[Kind], seq: &[Ev], mode: Rt) -> Outcome {
-    let rt = match mode {
-        Rt::Current => tokio::runtime::Builder::new_current_thread().enable_time().start_paused(true).build().unwrap(),
-        Rt::Multi => tokio::runtime::Builder::new_multi_thread()
+fn multi_runtime() -> &'static tokio::runtime::Runtime {
+    static RT: std::sync::OnceLock<tokio::runtime::Runtime> = std::sync::OnceLock::new();
+    RT.get_or_init(|| {
+        tokio::runtime::Builder::new_multi_thread()
             .worker_threads(2)
             .enable_time()
             .on_thread_start(quiet_panics_on_this_thread)
             .build()
-            .unwrap(),
+            .unwrap()
+    })
+}
+
+fn run_seq(kinds: &[Kind], seq: &[Ev], mode: Rt) -> Outcome {
+    let own;
+    let rt: &tokio::runtime::Runtime = match mode {
+        Rt::Current => {
+            own = tokio::runtime::Builder::new_current_thread().enable_time().start_paused(true).build().unwrap();
+            &own
+        }
+        // the smoke pass shares one 2-worker runtime (the driver itself runs on the calling thread,
+        // the tasks and joiners on the workers)
+        Rt::Multi => multi_runtime(),
     };
     let mut out = Outcome { violations: vec![], classes: vec![], model_states: vec![], events: 0, nontrivial: false };
     rt.block_on(async {
@@ -479,7 +493,6 @@ fn run_seq(kinds: &[Kind], seq: &[Ev], mode: Rt) -> Outcome {
             }
         }
     });
-    drop(rt);
     out
 }
 
@@ -562,7 +575,7 @@ fn main() {
     let ctx = Ctx::from_args("C42");
     quiet_panics_on_this_thread();
     let spec = Spec {
-        rule: "task sets: every single kind of {plain spawn, spawn_cancellable, spawn_cancellable with a pre-cancelled token, raw Token + drop guard} and every unordered pair of kinds; events per task: gate opens (return) | gate opens (panic) [once], cancel [cancellable], first joiner, second joiner [after the first], drop handle (aborts that task's joiners first) / per token: trigger, disarm guard, drop guard, first/second waiter. EVERY order of enabled events is executed up to length L (1 task: all maximal sequences; 2 tasks: L=5 quick, 7 thorough), oracle after every event, so all shorter orders are covered as prefixes. One evaluation = one maximal sequence on a fresh current-thread runtime (paused clock); a transition = one event applied to the real objects + one oracle evaluation; states = distinct reference-model states visited; distinct by construction (the DFS over enabled events never repeats a sequence); non-trivial = executions with at least one joiner and an ended task. A sub-set is re-run on a 2-worker multi-thread runtime as a smoke pass (reported separately, not counted).",
+        rule: "task sets: every single kind of {plain spawn, spawn_cancellable, spawn_cancellable with a pre-cancelled token, raw Token + drop guard} and every unordered pair of kinds; events per task: gate opens (return) | gate opens (panic) [once], cancel [cancellable], first joiner, second joiner [after the first], drop handle (aborts that task's joiners first) / per token: trigger, disarm guard, drop guard, first/second waiter. EVERY order of enabled events is executed up to length L (1 task: all maximal sequences; 2 tasks: L=6 quick, 7 thorough), oracle after every event, so all shorter orders are covered as prefixes. One evaluation = one maximal sequence on a fresh current-thread runtime (paused clock); a transition = one event applied to the real objects + one oracle evaluation; states = distinct reference-model states visited; distinct by construction (the DFS over enabled events never repeats a sequence); non-trivial = executions with at least one joiner and an ended task. A sub-set is re-run on a 2-worker multi-thread runtime as a smoke pass (reported separately, not counted).",
         assumptions: &[
             "tasks of a current-thread runtime interleave only at awaits; every await of the task bodies and joiners waits on a harness-owned gate or on the handle under test, so event orders are the schedules",
             "settled state = tokio's paused clock auto-advancing a 1 ms sleep, which happens only when every other task is blocked",
@@ -595,7 +608,7 @@ fn main() {
         finish(&ctx, rep, spec);
     }
 
-    let two_len: usize = ctx.tier.pick(5, 7);
+    let two_len: usize = ctx.tier.pick(6, 7);
     let wall_cap = Duration::from_secs(ctx.tier.pick(50, 780));
     let t0 = Instant::now();
     let states = Mutex::new(HashSet::<u64>::new());
